@@ -10,6 +10,7 @@ STAGES = [
 ]
 # scaled differences: |r_a - r_b| / (sum_j |A_ij||u_j| + |f_i|); expected ~1e-15
 THRESHOLDS = {
+    "in_place_equals_out_of_place": 0.5,   # computeResidual(v, v, u): result aliasing the right-hand side, bit for bit
     "level_operator_equals_direct_operator": 0.5,   # Level::initializeResidual (twice: other boundary mode first) + computeResidual, bit for bit
     "give_vs_reference": 1e-12,
     "take_vs_reference": 1e-12,
